@@ -17,6 +17,8 @@ CHECKS = {
              ref="DESIGN.md section 8 (C15)", note=ENGINE_NOTE + " Restart part of the property is covered by the C06 machinery, not by this theorem."),
  "C16": dict(text="Theorem c16_backend_irrelevant: for every Cfg, mode, start state and op sequence (incl. restarts) the model's results with Fd and Mmap are equal, outside batches on topics whose name does not fit the header (c16_refuted_long_name_batch). Every generated case is run once per backend in separate processes on the real crate and three-way diffed (FD, mmap, model).",
              ref="DESIGN.md section 8 (C16)", note=ENGINE_NOTE),
+ "C02": dict(text="Theorems (Coq, all admissible restart-free histories unless stated): c02_peek_and_offset_reads — (b) a peek returns exactly what the immediately following consuming read with the same arguments returns and (c) offset-addressed reads return only sub-ranges of entries appended to that topic, in append order (acceptors c02b_ok/c02c_ok over the model's trace); c02_batch_peek_then_consume, c02_subranges_any_state, c02_offset_read_changes_nothing hold in EVERY state; c02_queue_view_partial — (a) partially: peeks/offset reads change neither which entries consuming reads deliver nor any count (queue acceptors ignore them). The full erasure statement C02_full (also the NUMBER of entries a later budgeted read returns) is stated, not proved; it is decided on the implementation by a metamorphic run (every case with and without its non-consuming reads, results of the remaining ops must be identical). Reclamation bookkeeping clause: not modelled here (trackers are C12's subject).",
+             ref="DESIGN.md section 8 (C02)", note=ENGINE_NOTE + " Partial for clause (a): see C02_full in coq/props/C02.v."),
  "C14": dict(text="Theorem c14_component_safe (Coq, all keys, no bound): the path component computed from any key is non-empty, not '.'/'..', free of '/' and NUL. The hand-written model is tied to the code on every run by a differential run of the real sanitize_namespace and of real instances built through every constructor, and the extracted acceptor safe_component is applied to every component the implementation produced.",
              ref="DESIGN.md section 8 (C14)", note="Trusted: Coq kernel, extraction (ExtrOcamlBasic), OCaml driver, python generators, the cfg(walrus_verif) accessor, Linux PathBuf::push semantics (modelled). No axioms."),
  "C25": dict(text="Theorems c25_roundtrip and c25_injective (Coq, every topic string and every u64 segment): parse_wal_key (wal_key topic n) = Some (topic, n). The model of format!/rsplitn/strip_prefix/u64::from_str is tied to the unmodified types.rs (compiled via #[path]) by a differential run including adversarial topics and raw decoder inputs.",
